@@ -1,6 +1,7 @@
 package main
 
 import (
+	"go/types"
 	"sort"
 	"strings"
 
@@ -58,6 +59,12 @@ func (X *Exec) modifiedIn(fr *Frame, li *loopInfo, st *State) *modSet {
 	s.PC = ts.True()
 	startCells := map[*Cell]*Term{}
 	for c := range s.Cells {
+		if _, isFunc := c.Type.Underlying().(*types.Signature); isFunc {
+			// function values keep their identity (closures known on this path stay callable); a loop that
+			// reassigns one is detected by the comparison below all the same
+			startCells[c] = s.Cells[c]
+			continue
+		}
 		v := X.freshOfType(s, c.Type, "scr."+c.Name)
 		s.Cells[c] = v
 		startCells[c] = v
@@ -72,6 +79,12 @@ func (X *Exec) modifiedIn(fr *Frame, li *loopInfo, st *State) *modSet {
 	}
 	sort.Strings(names)
 	for _, n := range names {
+		if strings.HasPrefix(n, "C|func") {
+			// cells holding function values keep their content (see above)
+			startHeaps[n] = X.heap(st, n, X.heapSorts[n])
+			s.Heaps[n] = startHeaps[n]
+			continue
+		}
 		delete(s.Heaps, n)
 		startHeaps[n] = X.heap(s, n, X.heapSorts[n])
 	}
